@@ -161,9 +161,10 @@ def sv_matches(req, v):
 
 
 def roundtrip_shard(arg):
-    seed, idxs = arg
+    seed, idxs = arg[:2]
+    extra_env = arg[2] if len(arg) > 2 else None
     sh = vp.Shard()
-    mon = vp.Mon("inventory")
+    mon = vp.Mon("inventory", env=extra_env)
     versions = ["0.0.1", "1.2.3", "1.10.0", "2.0.0-rc.1", "2.0.0", "10.20.30+build.5", "1.2.3-alpha.1", "0.0.2", "0.1.0", "0.1.7"]
     urls = ["https://example.com/a.tgz", "", "u \"q\" \\ \n", "日本", "x" * 200]
     tags = ["", "plain", 'q"', "nl\n", "é"]
@@ -267,6 +268,17 @@ def run(tier, seed, work):
     nrt = 600 if tier == "quick" else 8000
     for d in vp.pmap(roundtrip_shard, [(seed, s) for s in vp.split(range(nrt), vp.NCPU)]):
         res.merge(d)
+    # ambient-read monitor: which environment variables does rendering / parsing / resolving an inventory ask for at all? None is an input: every
+    # name that is asked for is set to something hostile and a part of the round-trip workload runs again under that environment
+    probe = [{"op": "roundtrip", "artifacts": [{"version": "1.2.3", "os": "linux", "arch": "amd64", "url": "https://example.com/a.tgz", "checksum": "sha256:" + "0" * 64, "metadata": {"tag": "t", "n": 1}}],
+              "queries": [{"os": "linux", "arch": "amd64", "req": "*"}]}, {"op": "checksums", "digest": "sha256", "items": ["sha256:" + "a" * 64]}]
+    asked = vp.env_reads("inventory", probe, work)
+    res.extra["environment_variables_asked_for"] = asked
+    res.extra["ambient_read_probe"] = 1
+    if asked:
+        hostile = {n: "https://mirror.hostile.example/%s/" % n.lower() for n in asked}
+        for d in vp.pmap(roundtrip_shard, [(seed, s, hostile) for s in vp.split(range(min(nrt, 400)), vp.NCPU)]):
+            res.merge(d)
     res.exhaustive = True
     res.extra["exhaustive_bound"] = ("resolution: every inventory (ordered, with duplicates) of <=%d artifacts over {3-4 versions x 2 OS x 2 arch x 2 metadata} "
                                      "for u8, semver::Version (total), product-order pairs and f32-with-NaN (partial), x every query (os x arch x 4-6 version sets x 3 metadata requirements), "
